@@ -68,6 +68,19 @@ pub struct ReplayFile {
     pub original_ops: usize,
     #[serde(default)]
     pub shrink_evaluations: u64,
+    /// schedule minimisation: decisions the seeded strategy took in the failing run / explicit
+    /// decisions left in `scenario.sched.choices` / how many of those are not "stay" (255)
+    #[serde(default)]
+    pub schedule: Option<ScheduleTrace>,
+}
+
+#[derive(Serialize, Deserialize, Clone, Debug)]
+pub struct ScheduleTrace {
+    pub decisions_recorded: usize,
+    pub decisions_kept: usize,
+    pub explicit_decisions: usize,
+    pub evaluations: u64,
+    pub note: String,
 }
 
 #[derive(Serialize, Deserialize, Default, Debug)]
@@ -369,6 +382,7 @@ pub fn main_run(args: &[String]) -> i32 {
             original_ops: scn.n_ops(),
             shrink_evaluations: 0,
             scenario: scn,
+            schedule: None,
         };
         let raw_path = write_replay(&raw, &format!("{prop}-seed{seed}-{batch}-run{run}.raw.json"));
         let min_path = root().join("replays").join(format!("{prop}-seed{seed}-{batch}-run{run}.json"));
@@ -421,7 +435,7 @@ pub fn main_run(args: &[String]) -> i32 {
             let mut scn = if batch.is_empty() { props::generate(&prop, seed, props::batches(&prop, "quick")[0].0, 0) } else { props::generate(&prop, seed, &batch, run) };
             scn.sched.strategy = crate::spec::Strategy::Free;
             scn.knobs.push(("miri_seed".into(), k as i64));
-            let rf = ReplayFile { property: prop.clone(), clause: "miri-stage".into(), key: format!("miri-seed-{k}"), detail: text.clone(), minimised: false, original_ops: scn.n_ops(), shrink_evaluations: 0, scenario: scn };
+            let rf = ReplayFile { property: prop.clone(), clause: "miri-stage".into(), key: format!("miri-seed-{k}"), detail: text.clone(), minimised: false, original_ops: scn.n_ops(), shrink_evaluations: 0, scenario: scn, schedule: None };
             let path = write_replay(&rf, &format!("{prop}-seed{seed}-miri{k}-{batch}-run{run}.json"));
             println!("violation found by the Miri stage: {text}");
             println!("VIOLATION property={prop} replay={}", path.display());
@@ -542,7 +556,7 @@ pub fn main_shrink(args: &[String]) -> i32 {
         return 3;
     }
     let s = crate::shrink::shrink(&rf.scenario, &v, 4000);
-    let out = ReplayFile {
+    let mut out = ReplayFile {
         property: rf.property,
         clause: s.violation.clause.clone(),
         key: s.violation.key.clone(),
@@ -551,7 +565,22 @@ pub fn main_shrink(args: &[String]) -> i32 {
         original_ops: rf.original_ops,
         shrink_evaluations: s.evaluations,
         scenario: s.scenario,
+        schedule: None,
     };
+    // then the schedule: explicit decisions instead of a seeded strategy, as few as the failure needs
+    if let Some(m) = crate::shrink::minimise_schedule(&out.scenario, &s.violation, 3000) {
+        out.clause = m.violation.clause.clone();
+        out.key = m.violation.key.clone();
+        out.detail = m.violation.detail.clone();
+        out.scenario = m.scenario;
+        out.schedule = Some(ScheduleTrace {
+            decisions_recorded: m.decisions_recorded,
+            decisions_kept: m.decisions_kept,
+            explicit_decisions: m.forced_switches,
+            evaluations: m.evaluations,
+            note: "scenario.sched.choices[i] is the i-th scheduling decision: an index into the sorted set of runnable threads, 255 = the running thread keeps running; behind the end of the list the running thread keeps running (strategy Stay)".into(),
+        });
+    }
     std::fs::write(&args[1], serde_json::to_string_pretty(&out).unwrap()).expect("write");
     0
 }
